@@ -286,6 +286,10 @@ func (r *accReplayer) drift(what string, b []Step, si int) {
 
 // applyStep performs the real calls of one step; returns the error of the call under test
 func applyStep(e *env, u *universe, st Step, snapReal map[int]int) error {
+	return safely(func() error { return applyStepUnsafe(e, u, st, snapReal) })
+}
+
+func applyStepUnsafe(e *env, u *universe, st Step, snapReal map[int]int) error {
 	switch st.A {
 	case "Save":
 		addr := addrBytes(vtrace.Str(st.In["a"]))
@@ -383,9 +387,9 @@ func undone(b []Step, si int) string {
 	return "over-" + strings.Join(ks, "+")
 }
 
-// run one behaviour. observeAll: project and compare after every step; else only JournalLen in between and a
+// run one behaviour (false: stopped at a violation or drift). observeAll: project and compare after every step; else only JournalLen in between and a
 // full comparison at the last step (so the harness' own reads cannot hide a defect by loading data tries).
-func (r *accReplayer) run(b []Step, bi int, observeAll bool, pruning bool) {
+func (r *accReplayer) run(b []Step, bi int, observeAll bool, pruning bool) (clean bool) {
 	u := newUniverse(b[0])
 	var addrs [][]byte
 	for _, a := range u.addrs {
@@ -422,7 +426,7 @@ func (r *accReplayer) run(b []Step, bi int, observeAll bool, pruning bool) {
 			} else {
 				r.drift(fmt.Sprintf("%s: real error %v, specification error=%v (behaviour %d step %d)", st.A, err, wantErr, bi, si), b, si)
 			}
-			return
+			return false
 		}
 		jl := e.adb.JournalLen()
 		snapReal[vtrace.Int(st.Out["jl"])] = jl
@@ -440,7 +444,7 @@ func (r *accReplayer) run(b []Step, bi int, observeAll bool, pruning bool) {
 			} else {
 				r.drift(fmt.Sprintf("after %s the state cannot be read: %v (behaviour %d step %d)", st.A, perr, bi, si), b, si)
 			}
-			return
+			return false
 		}
 		// C07: the property predicate on the real observations, after every call
 		r.c07evals++
@@ -448,7 +452,7 @@ func (r *accReplayer) run(b []Step, bi int, observeAll bool, pruning bool) {
 			r.violation("C07", "C07/after-"+tag+"/"+strings.Join(bad, "+"),
 				fmt.Sprintf("code leaves do not match the referring accounts after %s: %v; real state %s (behaviour %d step %d, %s)",
 					tag, bad, canon(real), bi, si, mode), b, si, M{"real": real})
-			return
+			return false
 		}
 		want := st.St // what the property demands: the specification's state, unless the record carries `exp`
 		if x, ok := st.Exp["st"].(map[string]interface{}); ok {
@@ -458,7 +462,7 @@ func (r *accReplayer) run(b []Step, bi int, observeAll bool, pruning bool) {
 		root, rerr := e.adb.RootHash()
 		if rerr != nil {
 			r.drift(fmt.Sprintf("RootHash: %v", rerr), b, si)
-			return
+			return false
 		}
 		if len(d) == 0 {
 			key := canon(want)
@@ -477,20 +481,21 @@ func (r *accReplayer) run(b []Step, bi int, observeAll bool, pruning bool) {
 				r.drift(fmt.Sprintf("after %s the real state differs (%v) from the specification: real %s, specification %s (behaviour %d step %d, %s)",
 					tag, d, canon(real), canon(want), bi, si, mode), b, si)
 			}
-			return
+			return false
 		}
 		if _, dev := st.Exp["st"]; dev {
 			// behaviour generated with KnownDefects: the property held although the deviating model predicted otherwise
 			if dd := diff(u, real, st.St); len(dd) > 0 {
 				r.drift(fmt.Sprintf("after %s the real state satisfies the property; the deviation modelled under KnownDefects does not occur (behaviour %d step %d, %s)",
 					tag, bi, si, mode), b, si)
-				return
+				return false
 			}
 		}
 		if jl != vtrace.Int(st.Out["jl"]) {
 			r.jlDiffers++ // informational: the journal length is not part of C06/C07, snapshots are mapped by position
 		}
 	}
+	return true
 }
 
 func replayAccounts(path string) {
@@ -515,9 +520,11 @@ func replayAccounts(path string) {
 			bi++
 			if len(b) >= 2 {
 				pruning := prune && bi%4 == 3
-				r.run(b, bi, true, pruning)
-				r.run(b, bi, false, pruning)
-				runs += 2
+				runs++
+				if r.run(b, bi, true, pruning) { // the second pass shows whether the harness' own reads hid something
+					r.run(b, bi, false, pruning)
+					runs++
+				}
 				last := b[len(b)-1]
 				if nontrivialAccounts(b, os.Getenv("VERIF_PROP")) {
 					var calls []interface{}
